@@ -69,6 +69,7 @@ type c06Scenario struct {
 	CacheR    int      `json:"cache_r,omitempty"`
 	Crc       bool     `json:"crc,omitempty"`     // Channel.VerifyCrc (disk readers verify sealed segments / snapshot files when opening them)
 	Corrupt   string   `json:"corrupt,omitempty"` // "" | log | snap: one byte of the cached log segment / snapshot file was altered on disk before the start
+	CacheByCmd bool    `json:"cache_by_cmd,omitempty"` // the cached log was written command by command (as a live stream arrives): the segment size decides where its segments end; Corrupt is then "log:<j>" | "open:<j>" for damage to the j-th segment (see c06DamageSegment)
 	Prep      bool     `json:"prep,omitempty"`    // the source prepares a snapshot for 4 s (LF heartbeats) before +FULLRESYNC and before $<len>
 	NoResume  bool     `json:"no_resume,omitempty"` // output.replay.resumeFromBreakPoint=false: the position lives in the process only (ticker-mode output, CanTransaction=false)
 	Burst     string   `json:"burst,omitempty"`    // the master takes 2 writes during every snapshot; payload + those commands arrive as one write ("one") or split "inpay" | "atend" | "incmd"
@@ -361,7 +362,11 @@ func (e *c06Env) prepare() error {
 		}
 		if scn.Chan == "disk" {
 			ch := NewChannel(e.syncerConfig().Channel, c06SrcAddr)
-			err := c06FillCache(ch, h, scn.CacheSnap, scn.CacheL, scn.CacheR)
+			chunk := 0
+			if scn.CacheByCmd {
+				chunk = sourced.CmdLen
+			}
+			err := c06FillCacheBy(ch, h, scn.CacheSnap, scn.CacheL, scn.CacheR, chunk)
 			ch.Close()
 			if err != nil {
 				return fmt.Errorf("building the cache: %w", err)
@@ -383,6 +388,13 @@ func (e *c06Env) prepare() error {
 // becomes '7' ("h1:006" -> "h7:006": still a well-formed command, but of no history),
 // or in the snapshot file the same digit of the first key. File sizes do not change.
 func c06CorruptCache(dir string, what string) error {
+	if i := strings.IndexByte(what, ':'); i > 0 {
+		j, err := strconv.Atoi(what[i+1:])
+		if err != nil {
+			return fmt.Errorf("bad segment number in %q", what)
+		}
+		return c06DamageSegment(dir, what[:i], j)
+	}
 	ents, err := os.ReadDir(dir)
 	if err != nil {
 		return err
@@ -421,7 +433,97 @@ func c06CorruptCache(dir string, what string) error {
 	return fmt.Errorf("no %s file in %s", suffix, dir)
 }
 
+// c06DamageSegment damages the j-th log segment of a cache directory (segments counted from
+// the oldest, 0-based; the cache has several because the segment size is a command or two):
+//   - kind "log":  one byte of the segment's last command is altered as in c06CorruptCache
+//     (the history tag digit of the key becomes '7'); size and header stay as they were;
+//   - kind "open": the segment looks the way a segment looks that the tool was writing when
+//     its process was killed: the bytes are there, the header still carries the placeholder
+//     (checksum 0, size 0) that the writer replaces only when it closes the segment. Later
+//     segments behind it: what a later incarnation of the tool appended.
+func c06DamageSegment(dir string, kind string, j int) error {
+	segs, err := c06LogSegments(dir)
+	if err != nil {
+		return err
+	}
+	if j < 0 || j >= len(segs) {
+		return fmt.Errorf("the cache in %s has %d log segments, no segment %d", dir, len(segs), j)
+	}
+	fn := filepath.Join(dir, fmt.Sprintf("%d.aof", segs[j]))
+	b, err := os.ReadFile(fn)
+	if err != nil {
+		return err
+	}
+	switch kind {
+	case "log":
+		at := bytes.LastIndex(b, []byte("\r\nh"))
+		if at < 0 || at+3 >= len(b) {
+			return fmt.Errorf("no key found in %s", fn)
+		}
+		b[at+3] = '7'
+	case "open":
+		if len(b) < 13 {
+			return fmt.Errorf("%s is shorter than a segment header", fn)
+		}
+		for i := 1; i < 13; i++ { // version(1) | checksum(8) | size(4) | reserved
+			b[i] = 0
+		}
+	default:
+		return fmt.Errorf("unknown kind of damage %q", kind)
+	}
+	return os.WriteFile(fn, b, 0666)
+}
+
+// c06LogSegments lists the left offsets of the log segments in a cache directory, ascending.
+func c06LogSegments(dir string) ([]int64, error) {
+	ents, err := os.ReadDir(dir)
+	if err != nil {
+		return nil, err
+	}
+	var segs []int64
+	for _, en := range ents {
+		if !strings.HasSuffix(en.Name(), ".aof") {
+			continue
+		}
+		off, err := strconv.ParseInt(strings.TrimSuffix(en.Name(), ".aof"), 10, 64)
+		if err != nil {
+			continue
+		}
+		segs = append(segs, off)
+	}
+	sort.Slice(segs, func(a, b int) bool { return segs[a] < segs[b] })
+	return segs, nil
+}
+
 func c06FillCache(ch Channel, h *sourced.History, snap bool, l, r int) error {
+	return c06FillCacheBy(ch, h, snap, l, r, 0)
+}
+
+// c06ChunkReader hands its bytes out at most n per Read (a stream that arrived command by
+// command: the cache writer then closes a segment wherever the segment size says).
+type c06ChunkReader struct {
+	b []byte
+	n int
+}
+
+func (c *c06ChunkReader) Read(p []byte) (int, error) {
+	if len(c.b) == 0 {
+		return 0, io.EOF
+	}
+	k := c.n
+	if k > len(c.b) {
+		k = len(c.b)
+	}
+	if k > len(p) {
+		k = len(p)
+	}
+	copy(p, c.b[:k])
+	c.b = c.b[k:]
+	return k, nil
+}
+
+// c06FillCacheBy: chunk > 0 feeds the log writer chunk bytes per read.
+func c06FillCacheBy(ch Channel, h *sourced.History, snap bool, l, r int, chunk int) error {
 	if err := ch.SetRunId(h.ReplID); err != nil {
 		return err
 	}
@@ -439,7 +541,11 @@ func c06FillCache(ch Channel, h *sourced.History, snap bool, l, r int) error {
 		w.Close()
 	}
 	if r > l {
-		w, err := ch.NewAofWritter(bytes.NewReader(h.Bytes(h.Off(l), h.Off(r))), h.Off(l))
+		var src io.Reader = bytes.NewReader(h.Bytes(h.Off(l), h.Off(r)))
+		if chunk > 0 {
+			src = &c06ChunkReader{b: h.Bytes(h.Off(l), h.Off(r)), n: chunk}
+		}
+		w, err := ch.NewAofWritter(src, h.Off(l))
 		if err != nil {
 			return err
 		}
@@ -1407,6 +1513,9 @@ func (rec *c06Record) judge() mc.Result {
 		if rec.scn.Corrupt != "" {
 			kind = "altered-cache"
 		}
+		if c06DamageIsLater(rec.scn) {
+			kind = "damaged-later-segment"
+		}
 		return viol("the target was not brought up to the source's current position within the horizon", "not-caught-up:"+kind, fin)
 	}
 	var missing []string
@@ -1813,6 +1922,7 @@ func c06Histories(tier string) []c06Scenario {
 		}
 	}
 	fams = append(fams, c06SmallCacheFamilies(tier)...)
+	fams = append(fams, c06DamagedSegmentFamilies(tier)...)
 	var out []c06Scenario
 	// breadth-first: all histories of length d before any of length d+1
 	for d := 0; d <= 3; d++ {
@@ -1939,6 +2049,89 @@ func c06SmallCacheFamilies(tier string) []c06Family {
 	return fams
 }
 
+// c06DamagedSegmentFamilies: a verifying disk cache (VerifyCrc) whose log consists of several
+// segments (written command by command, segment size one or two commands, no size limit),
+// one of which - ANY of them, not only the one the reader is opened in - fails verification:
+// one byte altered, or left without its final header by a process that was killed while
+// writing it (later segments: what the next incarnation appended). The target's stored
+// position takes every command boundary of the cached range, so the damaged segment is
+// the one the reader is opened in, an earlier one (never read), or a later one (reached
+// by the reader when it moves from one segment to the next, while it is feeding the target).
+// The master is at the cache's end or four commands ahead. Oracle: unchanged (every
+// connection continues gap-free from the target's position or brings a snapshot, no
+// altered byte reaches the target, the target catches up within the horizon).
+func c06DamagedSegmentFamilies(tier string) []c06Family {
+	thorough := tier == "thorough"
+	logSizes := []int64{32, 64}
+	srcs := []c06SrcSpec{{"same", 0, 8, 0}, {"same", 0, 12, 0}}
+	caches := []c06CacheSpec{{"A", false, 2, 8}, {"A", true, 2, 8}}
+	short := [][]string{{"app"}, {"drop"}, {"fo"}, {"rs"}}
+	if thorough {
+		logSizes = append(logSizes, 100)
+		srcs = append(srcs, c06SrcSpec{"fo", 8, 12, 0}, c06SrcSpec{"same", 0, 12, 3})
+		caches = append(caches, c06CacheSpec{"A", false, 0, 8}, c06CacheSpec{"A", true, 4, 8})
+		short = c06Sequences([]string{"app", "drop", "fo", "foe", "trim", "rs"}, 1)[1:]
+	}
+	var fams []c06Family
+	for _, ls := range logSizes {
+		for _, s := range srcs {
+			for _, ca := range caches {
+				nseg := (ca.R - ca.L + c06CmdsPerSegment(ls) - 1) / c06CmdsPerSegment(ls)
+				hi := ca.R - 1
+				if thorough {
+					hi = ca.R // the position at the cache's right edge: nothing cached is read
+				}
+				for at := ca.L; at <= hi; at++ {
+					cp := c06CpSpec{"A", at}
+					if !c06Consistent(s, cp, ca) {
+						continue
+					}
+					tr := c06Scenario{Chan: "disk", LogSize: ls, Crc: true, CacheByCmd: true, Src: s.Kind, ForkAt: s.ForkAt, CurLen: s.CurLen, Trim: s.Trim,
+						CpID: cp.ID, CpAt: cp.At, CacheID: ca.ID, CacheSnap: ca.Snap, CacheL: ca.L, CacheR: ca.R}
+					// control: the same cache, every segment intact
+					fams = append(fams, c06Family{tr, [][]string{nil}})
+					for j := 0; j < nseg; j++ {
+						for _, kind := range []string{"log", "open"} {
+							v := tr
+							v.Corrupt = fmt.Sprintf("%s:%d", kind, j)
+							seqs := [][]string{nil}
+							if thorough || (s.CurLen == 8 && !ca.Snap && (at-ca.L)%3 == 0) {
+								seqs = append(seqs, short...)
+							}
+							fams = append(fams, c06Family{v, seqs})
+						}
+					}
+				}
+			}
+		}
+	}
+	return fams
+}
+
+// c06CmdsPerSegment: the cache writer closes a segment once header + data exceed LogSize.
+func c06CmdsPerSegment(logSize int64) int {
+	const header = 16
+	n := 1
+	for header+int64(n)*sourced.CmdLen <= logSize {
+		n++
+	}
+	return n
+}
+
+// c06DamageIsLater: the damaged segment of a "log:<j>" / "open:<j>" scenario lies behind the
+// segment that holds the target's stored position.
+func c06DamageIsLater(scn c06Scenario) bool {
+	i := strings.IndexByte(scn.Corrupt, ':')
+	if i < 0 || scn.CpID != scn.CacheID || scn.CpAt < scn.CacheL || scn.CpAt >= scn.CacheR {
+		return false
+	}
+	j, err := strconv.Atoi(scn.Corrupt[i+1:])
+	if err != nil {
+		return false
+	}
+	return j > (scn.CpAt-scn.CacheL)/c06CmdsPerSegment(scn.LogSize)
+}
+
 func c06Prep(tr c06Scenario) c06Scenario {
 	tr.Prep = true
 	return tr
@@ -2008,10 +2201,16 @@ func runC06(t *testing.T, rep *mc.Reporter) {
 		if only == "small" && scn.MaxSize == 0 {
 			continue
 		}
+		if only == "dseg" && !scn.CacheByCmd { // the damaged-segment families only
+			continue
+		}
 		if budget.Expired() {
 			break
 		}
 		rep.Scenario()
+		if os.Getenv("VERIF_C06_DUMP") == "scn" { // development aid: which history is running
+			fmt.Fprintf(os.Stderr, "SCN %s\n", scn)
+		}
 		res := c06Exec(t, scn, scratch, idx)
 		if res.Verdict == "violation" {
 			seen[res.Sig]++
